@@ -189,7 +189,7 @@ def _cmkey(cm):
 
 def check(tier):
     rep = Report(PROP, tier)
-    depth = 8 if tier == "thorough" else 6
+    depth = 8 if tier == "thorough" else 7
     sysm = Lifecycle()
     try:
         e2.explore(sysm, depth - 2, rep, PROP, merge=False)
